@@ -241,16 +241,6 @@ theorem join_goroutines_end (s : JoinProto.State) (hf : s.fixed = true) (hn : ¬
     · exact producer_progress_fixed s hf hret .L (by simpa [JoinProto.State.prod] using hl)
   · exact consumer_progress s hret
 
-theorem joinRun_append {s : JoinProto.State} {as bs : List JoinProto.Action} :
-    JoinProto.run s (as ++ bs) = (JoinProto.run s as).bind (fun t => JoinProto.run t bs) := by
-  induction as generalizing s with
-  | nil => simp [JoinProto.run]
-  | cons a as ih =>
-    simp only [List.cons_append, JoinProto.run]
-    cases JoinProto.step s a with
-    | none => simp
-    | some s' => simpa using ih
-
 /-- the state in which the code before the fix is stuck for ever: the node has returned after `cap` messages of the
 left source were queued, one more was sent, and the left source still has a message to send -/
 def leakState : JoinProto.State := ⟨false, ⟨1, JoinProto.cap, false, false⟩, ⟨0, 0, true, false⟩, .ret⟩
@@ -262,7 +252,7 @@ theorem join_unfixed_leaks :
     JoinProto.Reachable leakState ∧ ¬ leakState.final ∧ ∀ a, JoinProto.step leakState a = none := by
   refine ⟨⟨false, JoinProto.cap + 2, 0,
     List.replicate JoinProto.cap (.pSend .L) ++ [.cRecv .L true, .pSend .L, .pClose .R], ?_⟩, by decide, ?_⟩
-  · rw [joinRun_append, run_sends _ JoinProto.cap (by decide) (by decide) rfl rfl]
+  · rw [JoinProto.run_append, run_sends _ JoinProto.cap (by decide) (by decide) rfl rfl]
     decide
   · intro a
     cases a with
